@@ -51,7 +51,9 @@ func unionRules(c *Ctx) {
 	// (already present *as the same kind of thing*: a root among the roots, a node among the nodes)
 	const RL = "loop-totality"
 	c.rule(RL, loopRuleText)
-	lds := pkgFilter(c.reachDecls(RL, "sbom.(*NodeList).Add", "sbom.(*NodeList).Union"), "sbom.(*NodeList).", "sbom.(*Edge).AddDestinationById")
+	lds := pkgFilter(c.reachDecls(RL, "sbom.(*NodeList).Add", "sbom.(*NodeList).Union"), "sbom.(*NodeList).", "sbom.(*Edge).AddDestinationById",
+		// the copies Union merges into: an attribute the copy loses is an attribute the union loses
+		"sbom.(*Node).Copy", "sbom.(*Edge).Copy", "sbom.(*Person).Copy", "sbom.(*ExternalReference).Copy", "sbom.copy")
 	c.loopTotality(RL, lds, loopPolicies, commonSkips)
 	normaliserRule(c, "sbom.(*NodeList).Union", false)
 	normaliserRule(c, "sbom.(*NodeList).Add", true)
